@@ -4,6 +4,7 @@
 #![allow(clippy::all)]
 mod util;
 mod c03;
+mod c04;
 mod c12;
 mod c13;
 mod c16;
@@ -23,6 +24,7 @@ fn main() {
     let rc = match args[0].as_str() {
         "c03-replay" => c03::replay(rest),
         "c03-record" => c03::record(rest),
+        "c04-edges" => c04::edges(rest),
         "c12-replay" => c12::replay(rest),
         "c12-record" => c12::record(rest),
         "lower" => lower::lower(rest),
